@@ -4,6 +4,7 @@ import (
 	"bytes"
 	"fmt"
 	"github.com/dsnet/compress/xflate/verifharness/ref"
+	"math/rand"
 
 	"github.com/dsnet/compress/xflate/verifharness/gen"
 	"github.com/dsnet/compress/xflate/verifharness/vhlib"
@@ -22,10 +23,17 @@ func runC10(r *vhlib.Run) {
 	}
 	kinds := srcKinds()
 	for _, c := range codecs() {
-		for i := 0; i < n; i++ {
+		extra := 0
+		if c.Name == "flate" {
+			extra = 6 // corpus: dynamic blocks with a long end-of-block code that stop short of it (D10)
+		}
+		for i := 0; i < n+extra; i++ {
 			s := c.Valid(rng, maxPlain)
 			if i%3 == 2 {
 				s = gen.Stream{Data: gen.Mutate(rng, s.Data), Kind: "mutated"}
+			}
+			if i >= n {
+				s = gen.Stream{Data: longEOBWitness(rng, (i-n)%3, 9+rng.Intn(7)), Kind: "long-eob-stops-short"}
 			}
 			base := observe(c, s.Data, kinds[0], []int{4096}, rng)
 			replay := map[string]interface{}{"codec": c.Name, "input": vhlib.Hex(s.Data)}
@@ -61,7 +69,14 @@ func runC10(r *vhlib.Run) {
 						if !isPrefix(o.Out, base.Out) && !isPrefix(base.Out, o.Out) {
 							r.Violate("delivered-bytes-inconsistent", fmt.Sprintf("%s src=%s", c.Name, sk.Name), rp)
 						}
-						if o.Cls != base.Cls {
+						if o.Cls != base.Cls && c.Name == "flate" && sk.Name == "ByteReader" && o.Cls == "UEOF" && base.Cls == "Corrupted" &&
+							o.In == int64(len(s.Data)) && base.In >= int64(len(s.Data))-2 {
+							// known finding D10: with a ReadByte-only source the decoder asks for as many
+							// bits as the end-of-block code is long before decoding ANY literal/length
+							// symbol; an invalid stream whose violation lies in its last two bytes then
+							// runs out of input first
+							r.Violate("bytereader-eof-before-corruption-at-end", fmt.Sprintf("flate src=ByteReader: %s where every buffered source reports %s (violation within the last %d bytes of a %d-byte input)", o.Cls, base.Cls, int64(len(s.Data))-base.In, len(s.Data)), rp)
+						} else if o.Cls != base.Cls {
 							r.Violate("error-class-depends-on-driver", fmt.Sprintf("%s src=%s sched=%v: %s vs %s", c.Name, sk.Name, sched[0], o.Cls, base.Cls), rp)
 						}
 					}
@@ -212,4 +227,59 @@ func runC11(r *vhlib.Run) {
 	}
 	c11Gated(r)
 	r.Sample(map[string]interface{}{"stream": "4b4c84010000", "trailer": "ffee", "expect": "InputOffset=5 (stream length), 2 bytes left unread"})
+}
+
+// longEOBWitness: a final dynamic block whose end-of-block code is eobLen bits long while
+// literal 'a' has a 1-bit and length symbol 257 a 2-bit code, ending (tail 0) in a match with
+// an empty history, (tail 1) in three literals with no end-of-block, (tail 2) properly.
+func longEOBWitness(rng *rand.Rand, tail, eobLen int) []byte {
+	var w gen.BitW
+	w.Bits(1, 1)
+	w.Bits(2, 2)
+	nlit := 258
+	litLens := make([]int, nlit)
+	// 'a': 1 bit, 257: 2 bits, then one code of each length 3..eobLen-1 and two of eobLen
+	// (Kraft sum 1/2 + 1/4 + sum_{k=3}^{L-1} 2^-k + 2*2^-L = 1)
+	litLens[97] = 1
+	litLens[257] = 2
+	for k := 3; k < eobLen; k++ {
+		litLens[k-3] = k
+	}
+	litLens[eobLen] = eobLen
+	litLens[256] = eobLen
+	distLens := []int{1, 1}
+	all := append(append([]int{}, litLens...), distLens...)
+	clLens := make([]int, 19)
+	for i := 0; i < 16; i++ {
+		clLens[i] = 4
+	}
+	order := []int{16, 17, 18, 0, 8, 7, 9, 6, 10, 5, 11, 4, 12, 3, 13, 2, 14, 1, 15}
+	w.Bits(uint64(nlit-257), 5)
+	w.Bits(uint64(len(distLens)-1), 5)
+	w.Bits(19-4, 4)
+	for i := 0; i < 19; i++ {
+		w.Bits(uint64(clLens[order[i]]), 3)
+	}
+	cc := gen.Canonical(clLens)
+	for _, v := range all {
+		w.Code(cc[v], uint(clLens[v]))
+	}
+	lc := gen.Canonical(litLens)
+	switch tail {
+	case 0:
+		w.Code(lc[257], 2)
+		w.Code(0, 1)
+	case 1:
+		w.Code(lc[97], 1)
+		w.Code(lc[97], 1)
+		w.Code(lc[97], 1)
+	default:
+		w.Code(lc[97], 1)
+		w.Code(lc[257], 2)
+		w.Code(0, 1)
+		w.Code(lc[256], uint(eobLen))
+	}
+	w.Align()
+	_ = rng
+	return w.Buf
 }
